@@ -32,6 +32,12 @@ def component_of(p):
     return p["ch"]
 
 
+def _long_cases():
+    for ch in ("bsc", "bec", "z"):
+        for alpha in ("01", "pm1"):
+            yield f"C12|{ch}|long,{alpha}", {"ch": ch, "alpha": alpha, "long": True}
+
+
 def make(ch, p, ers, spelling="default"):
     """spelling: how the legal constructor call is written (positional / keyword / python int for 0 and 1)"""
     from kaira.channels import BinaryErasureChannel, BinarySymmetricChannel, BinaryZChannel
@@ -191,6 +197,64 @@ def execute(pl, res):
         res.sample({"channel": ch, "p": p, "alphabet": alpha, "dtype": dt, "erasure_symbol": ersv})
 
 
+def long_case(pl, res):
+    """one LONG input (2^16+3 symbols, 1-D and as 3 rows) per channel / probability / alphabet under the quantile policy: support and one-sidedness on
+    every symbol, p=0 identity, p=1 extreme, and the NUMBER of changed symbols equals the number of eligible symbols whose draw is below p (each
+    eligible symbol owns one draw: the count is floor/ceil(p * eligible) whatever the assignment)"""
+    import torch
+    from kmc.rngseam import Quantile, Seam
+    ch, alpha = pl["ch"], pl["alpha"]
+    N = (1 << 16) + 3
+    lo, hi = (0, 1) if alpha == "01" else (-1, 1)
+    idx = torch.arange(N)
+    bits = ((idx * 7 + idx // 5 + (idx % 11 == 0)) % 3 == 0)
+    x1 = torch.where(bits, torch.tensor(float(hi)), torch.tensor(float(lo)))
+    for p in (0.0, 1e-3, 0.1, 0.5, 0.9, 1.0):
+        for shape in ((N,), (3, N // 3)):
+            x = x1[: shape[0] * shape[1]].reshape(shape) if len(shape) == 2 else x1
+            cfg = f"p={p},{alpha},long,shape={'x'.join(map(str, shape))}"
+            v = lambda clause, d: res.viol(ch, cfg, clause, d)  # noqa: E731
+            chan = make(ch, p, None)
+            x0 = x.clone()
+            try:
+                with Seam(Quantile()) as pol:
+                    y = chan(x)
+            except Exception as e:  # noqa: BLE001
+                v("raises", f"{type(e).__name__}: {str(e)[:160]}")
+                continue
+            n = x.numel()
+            res.ev(n, nontrivial=n, transitions=1)
+            if not torch.equal(x, x0):
+                v("input-intact", "the long input was modified")
+            if tuple(y.shape) != tuple(x.shape):
+                v("support", f"output shape {tuple(y.shape)}")
+                continue
+            ers = -1.0
+            changed = y != x
+            elig = (x == hi) if ch == "z" else torch.ones_like(changed)
+            if ch == "bec":
+                ok = (~changed) | (y == ers)
+            else:
+                ok = (~changed) | (y == (lo + hi - x))
+            if not bool(ok.all()):
+                i = int((~ok).reshape(-1).nonzero()[0])
+                v("support", f"symbol {i}: {float(x.reshape(-1)[i])} -> {float(y.reshape(-1)[i])}")
+            if bool((changed & ~elig).any()):
+                v("z-one-sided", f"{int((changed & ~elig).sum())} symbols equal to {lo} were changed")
+            ne, nc = int(elig.sum()), int((changed & elig).sum())
+            if ch == "bec" and alpha == "pm1":
+                # an erased -1 stays -1: only +1 symbols show an erasure
+                ne, nc = int((x == hi).sum()), int((changed & (x == hi)).sum())
+            if p == 0.0 and nc:
+                v("p0", f"p=0 but {nc} symbols changed")
+            elif p == 1.0 and nc != ne:
+                v("p1", f"p=1 but only {nc} of {ne} eligible symbols changed")
+            elif 0 < p < 1 and pol.served >= n and abs(nc - p * ne) > 2 + 4e-3 * ne * (1 if ne < n else 0):
+                # every symbol owns one of the n equally spaced draws; restricted to a subset (Z channel, bipolar erasure) the count is a sub-grid count
+                v("rate", f"{nc} of {ne} eligible symbols changed, p*eligible = {p * ne:.1f} (draws are the {n}-point quantile grid)")
+    res.sample({"channel": ch, "alphabet": alpha, "N": N})
+
+
 # ----------------------------------------------------------------------------- spelling equivalence of the constructors behind this property
 # (positional / keyword / mixed spellings of one legal call configure the same object; shared helper kmc/spelling.py)
 _cases0, _execute0, _component0 = cases, execute, component_of
@@ -198,6 +262,7 @@ _cases0, _execute0, _component0 = cases, execute, component_of
 
 def cases(tier, seed):  # noqa: F811
     yield from _cases0(tier, seed)
+    yield from _long_cases()
     yield f"{PID}|spelling", {"kind": "spelling", "tier": tier}
 
 
@@ -205,6 +270,8 @@ def execute(p, res):  # noqa: F811
     if p.get("kind") == "spelling":
         from kmc import spelling
         return spelling.run(PID, res)
+    if p.get("long"):
+        return long_case(p, res)
     return _execute0(p, res)
 
 
